@@ -19,6 +19,10 @@ struct QueueModel {
   PushFail push_fail = PF_NEVER;
   PopFail pop_fail = PE_EMPTY;
 
+  static void serialize(const State& s, std::string& out) {
+    out.append(reinterpret_cast<const char*>(s.data()), s.size() * sizeof(int64_t));
+  }
+
   bool apply(State& s, const hz::OpRec& op) const {
     if (op.kind == Q_PUSH) {
       if (op.r) {
